@@ -149,6 +149,27 @@ func main() {
 				c = genC14opt(r, idx, *tier)
 			}
 			runC03(e, idx, c)
+		case "C07", "C08", "C08s":
+			var c *CnfCase
+			if desc != "" {
+				c = &CnfCase{}
+				mustJSON(desc, c)
+				c.norm()
+			} else if *prop == "C07" {
+				c = genC07(r, idx, *tier)
+			} else if *prop == "C08" {
+				c = genC08(r, idx, *tier)
+			} else {
+				c = genCnfForMus(r, *tier)
+			}
+			switch *prop {
+			case "C07":
+				runC07(e, idx, c)
+			case "C08":
+				runC08(e, idx, c)
+			default:
+				runC08s(e, idx, c)
+			}
 		default:
 			fmt.Fprintln(os.Stderr, "unknown property", *prop)
 			os.Exit(2)
